@@ -2,13 +2,10 @@
   C43 — Packet forwarding is all-or-nothing and conserves tokens.
   Property theorems only; model: IbcVerif/Model/Pfm.lean on top of the transfer cluster's denom model.
 
-  Status: the forwarded denomination is the credited one (full).  The refund of a failed forward
-  restores the intermediate chain in three of the four (receive, forward) combinations; in the fourth —
-  the receive MINTED and the forward BURNT, which happens exactly when a packet is forwarded back over
-  the channel it arrived on (A→B→A) — `WriteAcknowledgementForForwardedPacket` takes the "forward burnt"
-  branch and mints phantom vouchers into the channel's escrow account (`refund_restores_full_false`;
-  replayed on real chains by the harness; open known finding).  `all_or_nothing_partial` lifts the
-  three good cases to routes of any length by induction on the route.
+  Status: full for the modelled part.  On the pinned tree the refund of a forward sent back over its
+  arrival channel (receive MINTED, forward BURNT: A→B→A) minted phantom vouchers into the channel's
+  escrow account; repaired by /repo commit f970a92, the model mirrors the repaired code, and the old
+  witness is kept as `bounce_witness_now_restored`.  Retries / timeouts are monitor-checked only.
 -/
 import IbcVerif.Model.Pfm
 namespace IbcVerif.C43
@@ -38,36 +35,24 @@ theorem mint_and_burn_is_bounce (d : Denom) (p1 c1 p2 c2 : Str)
     simp only [ht, Bool.and_eq_true, beq_iff_eq] at h1 h2
     exact ⟨h1.1.symm.trans h2.1, h1.2.symm.trans h2.2⟩
 
-/-- **Refund restores the intermediate chain** (supply, both escrow accounts, total escrow) in every
-    combination except (receive minted, forward burnt). -/
-theorem refund_restores_partial (h : FHop) (a : Int) (m : Mid) (hb : ¬ (h.recv = .mint ∧ h.fwd = .burn)) :
-    bounceBack h a m = m := by
+/-- **Refund restores the intermediate chain** (voucher supply, both escrow accounts, total escrow) in
+    EVERY combination of what the receive did (mint / unescrow) and what the forward did (escrow /
+    burn), for every amount and every prior state. -/
+theorem refund_restores (h : FHop) (a : Int) (m : Mid) : bounceBack h a m = m := by
   obtain ⟨r, f⟩ := h
   obtain ⟨v, er, ef, te⟩ := m
-  cases r <;> cases f <;> simp_all [bounceBack, refund, refundCoded, fwdEff, recvEff] <;> omega
+  cases r <;> cases f <;> simp [bounceBack, refund, refundCoded, fwdEff, recvEff] <;> omega
 
-def refund_restores_full : Prop := ∀ (h : FHop) (a : Int) (m : Mid), bounceBack h a m = m
-
-/-- False of the code: receive mints 100, forward (back over the same channel) burns 100, the forward
-    fails; the coded refund mints 100 more into the channel's escrow account and raises total escrow. -/
-theorem refund_restores_full_false : ¬ refund_restores_full := by
-  intro h
-  have := h ⟨.mint, .burn⟩ 100 ⟨0, 0, 0, 0⟩
-  revert this
+/-- Regression of the finding fixed by /repo f970a92: receive mints 100, the forward back over the same
+    channel burns 100, the forward fails — the unrepaired refund left 100 phantom vouchers in the escrow
+    account and in the total-escrow entry (⟨100, 100, 0, 100⟩); now the chain is exactly as before. -/
+theorem bounce_witness_now_restored : bounceBack ⟨.mint, .burn⟩ 100 ⟨0, 0, 0, 0⟩ = ⟨0, 0, 0, 0⟩ := by
   decide
 
-/-- what the bounce leaves behind, exactly: `a` phantom vouchers in the escrow account and `a` more in
-    the total-escrow entry -/
-theorem bounce_leaves_phantom (a : Int) (m : Mid) :
-    bounceBack ⟨.mint, .burn⟩ a m = { m with v := m.v + a, er := m.er + a, te := m.te + a } := by
-  obtain ⟨v, er, ef, te⟩ := m
-  simp [bounceBack, refund, refundCoded, fwdEff, recvEff]
-
 /-- **All-or-nothing over routes of any length** (induction on the route): if the route fails somewhere
-    downstream, every intermediate chain that had forwarded ends exactly where it started, provided
-    no hop is a bounce; if nothing fails the outcome is `delivered`. -/
-theorem all_or_nothing_partial (route : List (FHop × Mid)) (a : Int)
-    (hb : ∀ x ∈ route, ¬ (x.1.recv = .mint ∧ x.1.fwd = .burn)) :
+    downstream, every intermediate chain that had forwarded ends exactly where it started and the
+    outcome is a clean refund; if nothing fails the outcome is `delivered`. -/
+theorem all_or_nothing (route : List (FHop × Mid)) (a : Int) :
     route.map (fun x => bounceBack x.1 a x.2) = route.map (·.2) ∧
     routeOutcome (route.map (·.1)) true = .refundedClean ∧
     routeOutcome (route.map (·.1)) false = .delivered := by
@@ -76,15 +61,14 @@ theorem all_or_nothing_partial (route : List (FHop × Mid)) (a : Int)
     | nil => rfl
     | cons x t ih =>
       simp only [List.map_cons, List.cons.injEq]
-      exact ⟨refund_restores_partial x.1 a x.2 (hb x (by simp)), ih (fun y hy => hb y (by simp [hy]))⟩
+      exact ⟨refund_restores x.1 a x.2, ih⟩
   · unfold routeOutcome
-    simp only [Bool.not_true, Bool.false_eq_true, if_false]
-    have : (route.map (·.1)).all (fun h => !(h.recv == .mint && h.fwd == .burn)) = true := by
+    have : (route.map (·.1)).all FHop.restores = true := by
       rw [List.all_eq_true]
-      intro h hh
-      obtain ⟨x, hx, rfl⟩ := List.mem_map.mp hh
-      have := hb x hx
-      cases hr : x.1.recv <;> cases hf : x.1.fwd <;> simp_all
+      intro h _
+      unfold FHop.restores
+      rw [refund_restores]
+      decide
     rw [this]
     rfl
 
